@@ -17195,6 +17195,20 @@ func (p *parser) handleIdentifier(loc logger.Loc, e *js_ast.EIdentifier, opts id
 		}
 	}
 
+	// An assignment to an exported member of another block of the same TypeScript
+	// namespace must also become a property access on the namespace:
+	// "namespace A { export let x = 1 } namespace A { x = 2 }" => "A.x = 2"
+	if opts.assignTarget != js_ast.AssignTargetNone || opts.isDeleteTarget {
+		symbol := &p.symbols[ref.InnerIndex]
+		if nsAlias := symbol.NamespaceAlias; nsAlias != nil && symbol.Kind == ast.SymbolOther {
+			if _, ok := p.refToTSNamespaceMemberData[nsAlias.NamespaceRef]; ok {
+				return js_ast.Expr{Loc: loc, Data: p.dotOrMangledPropVisit(
+					js_ast.Expr{Loc: loc, Data: &js_ast.EIdentifier{Ref: nsAlias.NamespaceRef}},
+					symbol.OriginalName, loc)}
+			}
+		}
+	}
+
 	// Substitute an EImportIdentifier now if this is an import item
 	if p.isImportItem[ref] {
 		return js_ast.Expr{Loc: loc, Data: &js_ast.EImportIdentifier{
